@@ -561,6 +561,11 @@ def run(tier):
         if fid and fid in known:
             known_once(fid, known[fid]['what'] + f' (replayed: `{r["q"]}`)')
             continue
+        if meta[0] == 'liberal' and 'C06-F10' in known and repeated_root(meta[1][1]):
+            # the same (not detached) type root occurs twice: it is factored, the statement is
+            # evaluated once per object, a link path from it is still classified UNIQUE
+            known_once('C06-F10', known['C06-F10']['what'] + f' (exploration stream: `{r["q"]}`)')
+            continue
         rep.violation('monitor failed on the real compiler (exploration stream, implicit path factoring / corpus): '
                       f'{sorted(set(m.split(":")[0] for m in r["mon"]))}'
                       + (f' -- proposed finding {fid} is not in known_findings.json' if fid else ''),
@@ -718,6 +723,16 @@ def split_values(s):
     if cur:
         out.append(cur)
     return out
+
+
+def repeated_root(e):
+    seen = set()
+    for n in G.walk(e):
+        if n[0] == 'root':
+            if str(n[1]) in seen:
+                return True
+            seen.add(str(n[1]))
+    return False
 
 
 def count_values(s):
